@@ -531,9 +531,11 @@ func (rt *runtime) convertCallParameter(v Value, t reflect.Type) (reflect.Value,
 	case reflect.String:
 		switch v.kind {
 		case valueString:
-			return reflect.ValueOf(v.value), nil
+			// v.string(), not the payload: a string may be held as []uint16
+			// (String.fromCharCode); Convert: t may be a named string type.
+			return reflect.ValueOf(v.string()).Convert(t), nil
 		case valueNumber:
-			return reflect.ValueOf(fmt.Sprintf("%v", v.value)), nil
+			return reflect.ValueOf(fmt.Sprintf("%v", v.value)).Convert(t), nil
 		}
 	case reflect.Int, reflect.Int8, reflect.Int16, reflect.Int32, reflect.Int64, reflect.Uint, reflect.Uint8, reflect.Uint16, reflect.Uint32, reflect.Uint64, reflect.Float32, reflect.Float64:
 		if v.kind == valueNumber {
